@@ -699,8 +699,13 @@ class Executor:
             return S("tag", str(idx))
         raise Unsupported(f"discriminant of {v!r}")
 
+    BUILTIN_ENUMS = {"Option": ["None", "Some"], "Result": ["Ok", "Err"], "Ordering": ["Less", "Equal", "Greater"]}
+
     def variant_index(self, ty, variant):
-        raise Unsupported(f"variant order of {ty} unknown")
+        order = self.BUILTIN_ENUMS.get(ty) or getattr(self, "enums", {}).get(ty)
+        if order and variant in order:
+            return order.index(variant)
+        raise Unsupported(f"variant order of {ty}::{variant} unknown")
 
     def _binop(self, fn, op, a, b):
         e = self.enc
@@ -820,11 +825,221 @@ def intr_fp_unary(name):
     return h
 
 
+def _ret(v):
+    return [([], "return", v, None, [])]
+
+
+def _int_arith(op, wrapping):
+    def h(ex, callee, args):
+        e = ex.enc
+        r, o = e.arith_ovf(op, args[0].term, args[1].term)
+        r = e.share(e.int_sort(), r)
+        if wrapping:
+            return _ret(S("int", r))
+        return [([o], "panic", None, "assert: arithmetic overflow in " + callee, []), ([neg(o)], "return", S("int", r), None, [])]
+    return h
+
+
+def intr_wrapping_neg(ex, callee, args):
+    e = ex.enc
+    r, _ = e.arith_ovf("Sub", e.int_const(0), args[0].term)
+    return _ret(S("int", e.share(e.int_sort(), r)))
+
+
+def intr_abs(ex, callee, args):
+    e = ex.enc
+    x = args[0].term
+    isneg = e.icmp("Lt", x, e.int_const(0))
+    r, o = e.arith_ovf("Sub", e.int_const(0), x)
+    val = S("int", e.share(e.int_sort(), f"(ite {isneg} {r} {x})"))
+    bad = f"(and {isneg} {o})"
+    if "wrapping_abs" in callee:
+        return _ret(val)
+    return [([bad], "panic", None, "assert: attempt to negate with overflow", []), ([neg(bad)], "return", val, None, [])]
+
+
+def intr_signum(ex, callee, args):
+    e = ex.enc
+    x = args[0].term
+    z = e.int_const(0)
+    return _ret(S("int", f"(ite {e.icmp('Gt', x, z)} {e.int_const(1)} (ite {e.icmp('Lt', x, z)} {e.int_const(-1)} {z}))"))
+
+
+def _int_pred(op):
+    def h(ex, callee, args):
+        e = ex.enc
+        return _ret(S("bool", e.icmp(op, args[0].term, e.int_const(0))))
+    return h
+
+
+def _euclid(which, wrapping=False):
+    def h(ex, callee, args):
+        e = ex.enc
+        a, b = args[0].term, args[1].term
+        zero = e.icmp("Eq", b, e.int_const(0))
+        ovf = f"(and {e.icmp('Eq', a, e.int_const(e.imin()))} {e.icmp('Eq', b, e.int_const(-1))})"
+        q, r = e.divrem(a, b)
+        rneg = e.icmp("Lt", r, e.int_const(0))
+        bpos = e.icmp("Gt", b, e.int_const(0))
+        one = e.int_const(1)
+        if which == "rem":
+            # r < 0 ? (b < 0 ? r - b : r + b) : r      (std: uses wrapping ops after the overflow check)
+            add = e.arith_ovf("Add", r, b)[0]
+            sub = e.arith_ovf("Sub", r, b)[0]
+            val = f"(ite {rneg} (ite {bpos} {add} {sub}) {r})"
+            val = f"(ite {ovf} {e.int_const(0)} {val})"
+        else:
+            qm = e.arith_ovf("Sub", q, one)[0]
+            qp = e.arith_ovf("Add", q, one)[0]
+            val = f"(ite {rneg} (ite {bpos} {qm} {qp}) {q})"
+        v = S("int", e.share(e.int_sort(), val))
+        outs = [([zero], "panic", None, "assert: attempt to divide by zero", [])]
+        if wrapping:
+            outs.append(([neg(zero)], "return", v, None, []))
+        else:
+            outs.append(([neg(zero), ovf], "panic", None, "assert: attempt to divide with overflow", []))
+            outs.append(([neg(zero), neg(ovf)], "return", v, None, []))
+        return outs
+    return h
+
+
+def intr_wrapping_div(ex, callee, args):
+    e = ex.enc
+    a, b = args[0].term, args[1].term
+    zero = e.icmp("Eq", b, e.int_const(0))
+    ovf = f"(and {e.icmp('Eq', a, e.int_const(e.imin()))} {e.icmp('Eq', b, e.int_const(-1))})"
+    q = e.divrem(a, b)[0]
+    v = S("int", e.share(e.int_sort(), f"(ite {ovf} {e.int_const(e.imin())} {q})"))
+    return [([zero], "panic", None, "assert: attempt to divide by zero", []), ([neg(zero)], "return", v, None, [])]
+
+
+def _checked(which):
+    def h(ex, callee, args):
+        e = ex.enc
+        a, b = args[0].term, args[1].term
+        if which in ("Add", "Sub", "Mul"):
+            r, o = e.arith_ovf(which, a, b)
+            none_c = o
+            val = r
+        else:
+            zero = e.icmp("Eq", b, e.int_const(0))
+            ovf = f"(and {e.icmp('Eq', a, e.int_const(e.imin()))} {e.icmp('Eq', b, e.int_const(-1))})"
+            none_c = f"(or {zero} {ovf})"
+            val = e.divrem(a, b)[0 if which == "Div" else 1]
+        some = Adt("Option", "Some", [S("int", e.share(e.int_sort(), val))])
+        return [([none_c], "return", Adt("Option", "None", []), None, []), ([neg(none_c)], "return", some, None, [])]
+    return h
+
+
+def _sat(which):
+    def h(ex, callee, args):
+        e = ex.enc
+        a, b = args[0].term, args[1].term
+        r, o = e.arith_ovf(which, a, b)
+        # on overflow saturate towards the sign of the exact result
+        if which == "Add":
+            up = e.icmp("Gt", b, e.int_const(0))
+        else:
+            up = e.icmp("Lt", b, e.int_const(0))
+        val = f"(ite {o} (ite {up} {e.int_const(e.imax())} {e.int_const(e.imin())}) {r})"
+        return _ret(S("int", e.share(e.int_sort(), val)))
+    return h
+
+
+def _fp1(fmt):
+    def h(ex, callee, args):
+        return _ret(S("fp", fmt.format(x=args[0].term)))
+    return h
+
+
+def _fpb(fmt):
+    def h(ex, callee, args):
+        return _ret(S("bool", fmt.format(x=args[0].term)))
+    return h
+
+
+def intr_copysign(ex, callee, args):
+    x, y = args[0].term, args[1].term
+    return _ret(S("fp", f"(ite (fp.isNegative {y}) (fp.neg (fp.abs {x})) (fp.abs {x}))"))
+
+
+def intr_fsignum(ex, callee, args):
+    e = ex.enc
+    x = args[0].term
+    one = e.fp_const("1f64")
+    return _ret(S("fp", f"(ite (fp.isNaN {x}) {x} (ite (fp.isNegative {x}) (fp.neg {one}) {one}))"))
+
+
+def intr_f_rem_euclid(ex, callee, args):
+    e = ex.enc
+    x, y = args[0].term, args[1].term
+    r = e.share(e.fp_sort(), e.fmod(x, y))
+    z = f"(_ +zero {e.eb} {e.sb})"
+    return _ret(S("fp", e.share(e.fp_sort(), f"(ite (fp.lt {r} {z}) (fp.add RNE {r} (fp.abs {y})) {r})")))
+
+
+def intr_f_div_euclid(ex, callee, args):
+    e = ex.enc
+    x, y = args[0].term, args[1].term
+    q = f"(fp.roundToIntegral RTZ (fp.div RNE {x} {y}))"
+    r = e.share(e.fp_sort(), e.fmod(x, y))
+    z = f"(_ +zero {e.eb} {e.sb})"
+    one = e.fp_const("1f64")
+    val = f"(ite (fp.lt {r} {z}) (ite (fp.gt {y} {z}) (fp.sub RNE {q} {one}) (fp.add RNE {q} {one})) {q})"
+    return _ret(S("fp", e.share(e.fp_sort(), val)))
+
+
+def intr_fminmax(which):
+    def h(ex, callee, args):
+        x, y = args[0].term, args[1].term
+        return _ret(S("fp", f"(fp.{which} {x} {y})"))
+    return h
+
+
+def intr_mul_add(ex, callee, args):
+    return _ret(S("fp", f"(fp.fma RNE {args[0].term} {args[1].term} {args[2].term})"))
+
+
 def intr_raise(ex, callee, args):
     return [([], "panic", None, "raise(" + repr(args[0]) + ")", [])]
 
 
+_I = r"core::num::<impl i64>::"
+_F = r"(std|core)::f64::<impl f64>::"
 NUMERIC_INTRINSICS = {
+    _I + r"wrapping_add$": _int_arith("Add", True),
+    _I + r"wrapping_sub$": _int_arith("Sub", True),
+    _I + r"wrapping_mul$": _int_arith("Mul", True),
+    _I + r"wrapping_neg$": intr_wrapping_neg,
+    _I + r"wrapping_div$": intr_wrapping_div,
+    _I + r"(wrapping_)?abs$": intr_abs,
+    _I + r"signum$": intr_signum,
+    _I + r"is_negative$": _int_pred("Lt"),
+    _I + r"is_positive$": _int_pred("Gt"),
+    _I + r"rem_euclid$": _euclid("rem"),
+    _I + r"div_euclid$": _euclid("div"),
+    _I + r"wrapping_rem_euclid$": _euclid("rem", True),
+    _I + r"wrapping_div_euclid$": _euclid("div", True),
+    _I + r"checked_add$": _checked("Add"),
+    _I + r"checked_sub$": _checked("Sub"),
+    _I + r"checked_mul$": _checked("Mul"),
+    _I + r"checked_div$": _checked("Div"),
+    _I + r"checked_rem$": _checked("Rem"),
+    _I + r"saturating_add$": _sat("Add"),
+    _I + r"saturating_sub$": _sat("Sub"),
+    _F + r"is_sign_negative$": _fpb("(fp.isNegative {x})"),
+    _F + r"is_sign_positive$": _fpb("(fp.isPositive {x})"),
+    _F + r"is_nan$": _fpb("(fp.isNaN {x})"),
+    _F + r"is_infinite$": _fpb("(fp.isInfinite {x})"),
+    _F + r"is_finite$": _fpb("(not (or (fp.isNaN {x}) (fp.isInfinite {x})))"),
+    _F + r"copysign$": intr_copysign,
+    _F + r"signum$": intr_fsignum,
+    _F + r"rem_euclid$": intr_f_rem_euclid,
+    _F + r"div_euclid$": intr_f_div_euclid,
+    _F + r"min$": intr_fminmax("min"),
+    _F + r"max$": intr_fminmax("max"),
+    _F + r"mul_add$": intr_mul_add,
+    _F + r"sqrt$": _fp1("(fp.sqrt RNE {x})"),
     r"(^|::)raise(::<.*>)?$": intr_raise,
     r"core::num::<impl i64>::wrapping_rem$": intr_wrapping_rem,
     r"std::f64::<impl f64>::floor$": intr_floor,
